@@ -130,11 +130,33 @@ class Result:
 _WORKER_FN = None
 
 
+def _raised_in_library(e):
+    """Was the exception raised by code of the tree under test (its innermost frame is an aiocoap frame)?"""
+    tb = e.__traceback__
+    last = None
+    while tb is not None:
+        last = tb
+        tb = tb.tb_next
+    return last is not None and "/aiocoap/" in last.tb_frame.f_code.co_filename
+
+
 def _call(arg):
     try:
         return _WORKER_FN(arg)
-    except BaseException as e:  # harness fault inside a worker: carry it to the parent
-        return ("__fault__", "".join(traceback.format_exception(type(e), e, e.__traceback__)))
+    except BaseException as e:
+        text = "".join(traceback.format_exception(type(e), e, e.__traceback__))
+        if isinstance(e, Exception) and _raised_in_library(e) and "HarnessFault" not in type(e).__name__:
+            # An exception raised *inside the library* came out of a call the harness makes (the same call works on the unchanged
+            # tree, where every check is silent): that is the library's behaviour, not a fault of the machinery.  It is reported
+            # as a violation of its own class; the run of this worker ends here.
+            r = Result()
+            r.evaluations = 1
+            r.outcomes.add("library-exception")
+            r.violate(Violation("exception-escapes-library", "the call returns (or raises a documented library error)", exc_desc(e), site_of(e),
+                                {"unreplayable": "raised outside any oracle; re-run the check", "worker_arg": repr(arg)[:300]},
+                                trace=text.splitlines()[-12:], key="escape:%s@%s" % (type(e).__name__, site_of(e))))
+            return r
+        return ("__fault__", text)      # harness fault inside a worker: carry it to the parent
 
 
 def pmap(fn, items, jobs=None, chunksize=1):
